@@ -29,7 +29,9 @@ def V(pid, sig, msg, step=None):
 STRAY_KINDS = ["stale", "stale", "stale", "stale_any", "stale_shape", "stale_shape", "badtag", "badtag", "unknown_svc",
                "not_awaited", "not_awaited", "not_awaited", "not_awaited", "case_svc", "future", "svc_near", "svc_near"]
 BAD_TAGS = ["_%(ser)x", "%(id)x_", "%(id)x", "%(id)x-%(ser)x", "%(id)x_%(ser)xz", "%(id)x_%(ser)x_", "g%(id)x_%(ser)x", "%(id)x_", "_%(ser)x",
-            "%(id)x_%(ser)x %(ser)x", "%(id)x__%(ser)x", "0x_%(ser)x", "%(id)x_-"]
+            "%(id)x_%(ser)x %(ser)x", "%(id)x__%(ser)x", "0x_%(ser)x", "%(id)x_-",
+            # white space other than a blank inside the tag: it ends the word like a blank does
+            "%(id)x_\t%(ser)x", "%(id)x_\x0b%(ser)x", "%(id)x_\x0c%(ser)x", "%(id)x_\r%(ser)x", "%(id)x\t_%(ser)x", "%(id)x_\t%(ser)x"]
 
 
 @st.composite
@@ -65,6 +67,20 @@ def c04_s(draw, pid, tier, opts=None):
               ["X", cid, S, "MORE say friend", "cur"], ["P", cid, ans]]
         long_answer = (cid, S, len(base["events"]) + len(ev))
         base["events"] = base["events"] + [e for e in ev] + [["H", cid], ["T", cid]]
+    if long_answer is None and logins and "iauth_xquery" in base["conf"]["modules"] and draw(st.integers(0, 15)) == 0:
+        # scenario "the challenger is gone": a service challenges a client and is dropped by a reload while another
+        # client still waits for it (so the daemon keeps its record); the challenged client answers - the answer has
+        # nowhere to go, no query is written - and the service then sends a reply with the client's tag
+        S = draw(st.sampled_from(logins))
+        a_, b_ = draw(st.sampled_from([(5, 6), (6, 5), (1, 77)]))
+        ev = []
+        for cid in (a_, b_):
+            ev += [["C", cid, draw(st.sampled_from(ep.IPS)), 4242 + cid], ["P", cid, "%s acct%d pw" % (draw(st.sampled_from(["+x!", "+!", "+x"])), cid)]]
+        ev += [["X", a_, S, "MORE say friend", "cur"],
+               ["reload", [list(x) for x in base["conf"]["services"] if x[0] != S]],
+               ["P", a_, draw(st.sampled_from(["mellon", "a longer answer", "+x acct5 pw2"]))]]
+        long_answer = (a_, S, len(base["events"]) + len(ev))
+        base["events"] = base["events"] + ev + [["N", a_, "host.example.org"], ["u", a_, "ident"], ["n", a_, "Nick"], ["U", a_, "user", "real name"], ["H", a_], ["T", a_], ["D", b_]]
     n = len(base["events"])
     ids = sorted({e[1] for e in base["events"] if e[0] == "C"})
     stray = {
@@ -611,6 +627,9 @@ def logs_s(draw):
             # a destination that cannot be opened (missing directory / a directory): the daemon may refuse to run,
             # but log text must not end up on the server channel instead
             out.append([k, draw(st.sampled_from(["file:no-such-dir/x.log", "file:.", "file:/nonexistent/iauthd/y.log"]))])
+        elif draw(st.integers(0, 11)) == 0:
+            # file names that other programs read as "standard output / error" are ordinary file names here
+            out.append([k, draw(st.sampled_from(["file:-", "file:-", "file:stdout", "file:&1", "file:-1"]))])
         elif draw(st.booleans()):
             out.append([k, "file:log%d.txt" % draw(st.integers(0, 2))])
         else:
@@ -760,6 +779,8 @@ def eval_c09(case, ctx):
         if not grammar_ok(ln):
             res.violations.append(V("C09", "bad_grammar", "server channel carried %r which is not a valid IAuth message" % ln[:200]))
             break
+    if getattr(d, "unframed", 0) and not res.violations:
+        res.violations.append(V("C09", "unterminated_line", "a message on the server channel was not ended by a line feed: the next message (the statistics report the driver asked for) started in the middle of a line"))
     res.classes = set(spec.classes)
     if multi_zero:
         res.classes.add("ipv6_two_zero_runs")
@@ -884,11 +905,18 @@ def c11_successor_s(draw):
     ev.append(["X", cid, old, draw(st.sampled_from(["OK", "OK", "OK drone:1"])), "cur"])
     rest = [s_ for s_ in svcs if s_[0] != old]
     ntype = draw(st.sampled_from(["dronecheck", "combined", "login"]))
-    if draw(st.booleans()):
+    how_ = draw(st.integers(0, 3))
+    if how_ == 0:
         ev.append(["reconf", {"services": rest + [[new, ntype]]}])
-    else:
+    elif how_ == 1:
         ev += [["reconf", {"services": rest}], ["reconf", {"services": rest + [[new, ntype]]}]]
-    k = draw(st.integers(0, 2))
+    else:
+        # the place stays empty: the rules are evaluated over a table with a gap in it
+        ev += [["reconf", {"services": rest}]]
+        if draw(st.booleans()):
+            ev += [["C", cid + 1, "10.1.2.4", 4001], ["N", cid + 1, "host.example.org"], ["u", cid + 1, "ident"], ["n", cid + 1, "Other"],
+                   ["U", cid + 1, "user", "real name"], ["X", cid + 1, "login.ex", "OK", "cur"], ["H", cid + 1]]
+    k = draw(st.integers(0, 2)) if how_ < 2 else 0
     if k == 1:
         # the newcomer is asked on the client's next data event and answers
         ev += [["n", cid, "Nick2"], ["X", cid, new, draw(st.sampled_from(["OK", "AGAIN later", "OK"])), "cur"]]
